@@ -173,7 +173,9 @@ class Calls(Interp):
             if c is not None and c.pure:
                 return self.inline(fi, args, kwargs)
             raise Unsupported("call of %s in a specification" % fi.fid)
-        if fi.fid == self.fid and self.call_depth > 0:
+        if fi.fid == self.fid.split("@")[0] and not (top and fi.fid in top.inline_callees):
+            # a recursive call (also directly from the top-level body): the function's own contract (partial correctness)
+            c = self.reg.contracts.get(self.fid) or c
             if c is None:
                 raise Unsupported("recursion without contract")
             use_contract = True
